@@ -166,6 +166,14 @@ def features(term, value, env, tags='EXPLICIT', ext_implied=False, codec='per', 
                 feats.add('ext-root-min-max')
             elif ext and not (lb <= len(v) <= ub) and len(v) >= 16384:
                 feats.add('ext-outside-root-16k')
+            if aligned and len(v) > 16384:
+                # a further fragment follows the first 16K elements; is its length determinant at an octet boundary
+                # by itself (every element a whole number of octets), or only if the encoder aligns it?
+                try:
+                    if any(_bits(t.elem, x, ctx).nbits() % 8 for x in v[:6]):
+                        feats.add('fragment-after-unaligned-elements')
+                except Exception:
+                    pass
             seen = set()
             for x in v:
                 r = repr(x)
@@ -309,7 +317,15 @@ def type_features(term, env, tags='EXPLICIT', ext_implied=False, numeric=False):
 def _feats(f):
     if '_term' not in f:
         return set()
-    return features(f['_term'], f['_value'], f['_env'], f.get('tags', 'EXPLICIT'), f.get('ext_implied', False),
+    v = f['_value']
+    if f.get('numeric'):
+        # the shrinker keeps ENUMERATED values as names; the run (and the model) used numbers
+        try:
+            from .values import to_numeric
+            v = to_numeric(f['_term'], v, f['_env'])
+        except Exception:
+            pass
+    return features(f['_term'], v, f['_env'], f.get('tags', 'EXPLICIT'), f.get('ext_implied', False),
                     f.get('codec', 'per'), f.get('numeric', False))
 
 
@@ -360,6 +376,10 @@ def c05_extension_length_not_fragmented(f):
 
 def c05_open_type_length_not_fragmented(f):
     return _has(f, 'open-type>=16k', ANY)
+
+
+def c05_fragment_length_not_aligned(f):
+    return f.get('codec') == 'per' and _has(f, 'fragment-after-unaligned-elements', ANY)
 
 
 def c05_choice_index_textual_order(f):
